@@ -270,11 +270,14 @@ class SymbolicExpression(Generic[T], ABC):
         the whole condition of a query - the outermost one or one nested in another expression.
         """
         parent = self._parent_
-        return (
-            isinstance(parent, LogicalOperator)
-            or (isinstance(parent, QueryObjectDescriptor) and parent._child_ is self)
-            or self is self._conditions_root_
-        )
+        if isinstance(parent, LogicalOperator) or (
+            isinstance(parent, QueryObjectDescriptor) and parent._child_ is self
+        ):
+            return True
+        # An expression that is evaluated below another one stands where that one uses it. Only without such a parent does
+        # the tree say whether it is the whole condition - the tree of a variable changes whenever another expression
+        # is written over it (d = x.real), also one that is used nowhere.
+        return self._eval_parent_ is None and self is self._conditions_root_
 
     @property
     def _root_(self) -> SymbolicExpression:
